@@ -1,8 +1,9 @@
 """C16 - haptools ld reports the Pearson correlation of dosages.
 
 Relation
-  ld : haptools.ld.calc_ld on generated biallelic phased matrices (VCF.gz+tbi or PGEN), .hap sets with
-       repeats, every kind of target, the four {from_gts, ids} modes, sample subsets; plus a second run with
+  ld : haptools.ld.calc_ld, called directly or through the `haptools ld` command, on generated biallelic phased
+       matrices (VCF.gz+tbi or PGEN, optionally read in chunks), .hap sets with repeats (plain, or sorted + bgzipped +
+       indexed by haptools index), every kind of target, the four {from_gts, ids} modes, sample subsets; plus a second run with
        the target swapped with one listed item (symmetry, and agreement of the .hap and .ld output modes).
        A malformed stream (absent target, allele not in the variant, missing / multiallelic / unphased call)
        is compared with the model's exception kinds only.
@@ -157,8 +158,8 @@ def gen_case(rng):
             "via": "cli" if rng.random() < 0.25 else "api", "hapfmt": "gz" if rng.random() < 0.2 else "plain",
             "chunk": int(rng.integers(1, 4)) if (fmt == "pgen" and rng.random() < 0.5) else None}
     r = rng.random()
-    if r > 0.95 and ids:
-        # the same --id given twice (outside the property's quantifier; model agreement only)
+    if r > 0.93 and ids:
+        # the same --id given twice: still listed once
         ids.insert(int(rng.integers(0, len(ids) + 1)), ids[int(rng.integers(0, len(ids)))])
         case["kind"] = "dup-ids"
     if r < 0.04:
@@ -367,7 +368,7 @@ class LD(Relation):
                 f"{ids} {L.b(case['from_gts'])} {mo} {so})")
 
     def nontrivial(self, case, obs):
-        if case["kind"] not in ("wellformed", "exhaustive") or not isinstance(obs, dict) or "ok" not in obs.get("main", {}):
+        if case["kind"] not in ("wellformed", "exhaustive", "dup-ids") or not isinstance(obs, dict) or "ok" not in obs.get("main", {}):
             return False
         return any(r[1] is not None and abs(r[1]) != 1000 for r in obs["main"]["ok"])
 
@@ -434,6 +435,9 @@ class LD(Relation):
             m, s = obs["main"], obs["sym"]
             if "err" in m:
                 return f"calc_ld raises {m.get('cls')} for a {kind} target with from_gts={case['from_gts']}"
+            rows = [r[0] for r in m.get("ok", [])]
+            if len(set(rows)) < len(rows):
+                return f"calc_ld lists an item twice (--id repeated) for a {kind} target with from_gts={case['from_gts']}"
             if s and "err" in s[1] and s[1]["err"] != 97:
                 return (f"calc_ld raises {s[1].get('cls')} for a "
                         f"{'haplotype' if s[0] in hap_ids else 'variant'} target with from_gts={kind != 'haplotype'}")
@@ -452,6 +456,6 @@ LEVEL_TEXT = (
 LEVEL_NOTE = (
     "Partial: the floating-point evaluation of numpy.corrcoef and the '.3f' printing are not verified; each printed R "
     "is compared with the exact rational correlation by rational inequalities (|printed - r| <= 0.0005 + 1e-9). "
-    "Region subsetting, --discard-missing, chunked PGEN reading and indexed .hap files are not modelled."
+    "Region subsetting and --discard-missing are not modelled (never used by the generated runs)."
 )
 TECHNIQUE = "Coq proofs over Z/Q (Cauchy-Schwarz, list reasoning) + vm_compute-evaluated correspondence against calc_ld"
